@@ -191,9 +191,15 @@ pub struct RunOut {
     pub cap_len_ok: bool,
 }
 
+thread_local! {
+    /// message-available flag the "transport" reports for the next run (C10/C16: must not influence framing)
+    pub static MAV: Cell<bool> = const { Cell::new(false) };
+}
+
 fn run_arr<const N: usize>(tree: &Node<XDev>, bytes: &[u8], dev: &mut XDev) -> RunOut {
     let mut buf = ArrayVec::<u8, N>::new();
     let mut ctx = Context::default();
+    ctx.mav = MAV.with(|m| m.get());
     ALLOCS.with(|a| a.set(0));
     let r = lib(|| tree.run(bytes, dev, &mut ctx, &mut buf));
     let allocs = ALLOCS.with(|a| a.get());
@@ -213,6 +219,7 @@ pub fn run_case(tree: &Node<XDev>, bytes: &[u8], dev: &mut XDev, cap: i64) -> Ru
     if cap < 0 {
         let mut buf: Vec<u8> = Vec::new();
         let mut ctx = Context::default();
+        ctx.mav = MAV.with(|m| m.get());
         let r = tree.run(bytes, dev, &mut ctx, &mut buf);
         return RunOut { ret: r.err(), out: buf, allocs: 0, cap_len_ok: true };
     }
@@ -278,6 +285,7 @@ pub fn replay(args: &[String]) -> i32 {
             let _ = catch(std::panic::AssertUnwindSafe(|| run_case(tree, &prev, &mut scratch, -1)));
             prev = bytes.clone();
         }
+        MAV.with(|m| m.set(ci % 2 == 1));
         let mut dev = XDev { scripts, ..Default::default() };
         let r = catch(std::panic::AssertUnwindSafe(|| run_case(tree, &bytes, &mut dev, cap)));
         executed += 1;
